@@ -855,6 +855,8 @@ class Engine(object):
             m = self.find_method(base.cls, attr)
             if m is not None:
                 fv, kind = m
+                if kind == "staticmethod":
+                    return [(st, fv)]           # obj.f(...) of a static method: no receiver is passed
                 fv = self.decorated(fv.bind(base), st)
                 if kind == "property":
                     return self.call_function(fv, [], {}, st, node)
